@@ -471,6 +471,7 @@ func check(cfg checkCfg) int {
 	if base == "" {
 		base = os.TempDir()
 	}
+	removeStale(base)
 	scratch, err := os.MkdirTemp(base, "vsim-")
 	if err != nil {
 		fail2("mktemp: %v", err)
@@ -819,4 +820,20 @@ func sampleOf(c *Case, r *RunResult) json.RawMessage {
 	}
 	b, _ := json.Marshal(m)
 	return b
+}
+
+// removeStale deletes scratch directories a killed earlier run left behind.
+func removeStale(base string) {
+	ents, err := os.ReadDir(base)
+	if err != nil {
+		return
+	}
+	for _, e := range ents {
+		if !e.IsDir() || !strings.HasPrefix(e.Name(), "vsim-") {
+			continue
+		}
+		if info, err := e.Info(); err == nil && time.Since(info.ModTime()) > 6*time.Hour {
+			os.RemoveAll(filepath.Join(base, e.Name()))
+		}
+	}
 }
